@@ -191,6 +191,17 @@ func (s *Store) NumWrites() int {
 
 // Audit re-hashes every stored value with the hash function and length of the
 // CID it is stored under. Returns the keys that do not verify.
+// Keys returns the CIDs under which the store holds something.
+func (s *Store) Keys() []cid.Cid {
+	var out []cid.Cid
+	for k := range s.Mem.snapshot() {
+		if c, err := cid.Cast([]byte(k)); err == nil {
+			out = append(out, c)
+		}
+	}
+	return out
+}
+
 func (s *Store) Audit() (n int, bad []string) {
 	for k, v := range s.Mem.snapshot() {
 		n++
